@@ -73,6 +73,9 @@ def run(tier):
     out = tlc_out(ck, wd, "PackedHostile", "PackedHostile.cfg", "packed")
     strict(ck, "packed-deltas", "fv-total", ["c01", "packed", "--cases", out, "--out", os.path.join(wd, "d.ndjson")])
     os.remove(out)
+    out = tlc_out(ck, wd, "ContextClosure", "ContextClosure.cfg", "layhostile", workers=2)
+    strict(ck, "layout-hostile", "fv-total", ["c01", "layhostile", "--cases", out, "--out", os.path.join(wd, "r.ndjson")])
+    os.remove(out)
     # charstring programs: the model-checked family and the extreme-operand family (enumerated only) of CharstringMC
     out = tlc_out(ck, wd, "CharstringMC", "CharstringMC_extreme.cfg", "cs_extreme")
     strict(ck, "charstring:extreme-operands", "fv-total", ["cs", "replay", "--cases", out, "--out", os.path.join(wd, "p.ndjson")])
